@@ -88,10 +88,32 @@ def monC02c (o : Obs) : Bool :=
   | Event.released _ => o.evs.all Event.isRelease
   | Event.pressed _ => true
 
+/-- C02(d): the trigger keys of mappings in effect that are held on the virtual keyboard although no
+mapping in effect outputs them -/
+def unconsumed (active : List Mapping) (V : List Key) : List Key :=
+  active.flatMap fun m => m.frm.filter fun k => V.contains k && !active.any fun m2 => m2.to.contains k
+
 /-- while a mapping is in effect its trigger keys are consumed -/
-def monC02d (o : Obs) : Bool :=
-  o.s'.active.all fun m => m.frm.all fun k =>
-    !o.V'.contains k || o.s'.active.any fun m2 => m2.to.contains k
+def monC02d (o : Obs) : Bool := (unconsumed o.s'.active o.V').isEmpty
+
+/-- violations of C02(d) that this step introduced -/
+def newUnconsumed (o : Obs) : List Key :=
+  (unconsumed o.s'.active o.V').filter fun k => !(unconsumed o.s.active o.V).contains k
+
+/-- signature of known finding D5: the step fired a key-producing mapping while another press had left
+absorbed keys, and every newly unconsumed key was handed back to pass-through during this step (by
+`release_absorbed_keys` inside `add_new_mapping`, after the consumption step had already run) -/
+def sigD5 (o : Obs) : Bool :=
+  (match o.fired with
+   | some m => isActionMapping m
+   | none => false) &&
+  !(o.s.absorbed.filter (fun k => k != o.e.key)).isEmpty &&
+  (newUnconsumed o).all fun k => o.s'.pass.contains k && !o.s.pass.contains k
+
+/-- tag of a C02(d) violation introduced by this step, if any -/
+def monC02dTag (o : Obs) : Option String :=
+  if (newUnconsumed o).isEmpty then none
+  else if sigD5 o then some "C02:D5" else some "C02:d"
 
 def Repeat.isNormal : Repeat → Bool
   | Repeat.normal => true
@@ -147,11 +169,86 @@ def monC03 (o : Obs) : Bool :=
         if o.s.active.any (fun m => m.frm.contains k || m.to.contains k) then o.evs.isEmpty
         else o.evs.getLast? == some (Event.pressed k)
 
+/-- C05: the key appears nowhere in the layout -/
+def foreign (L : Layout) (k : Key) : Bool :=
+  !L.any fun m => m.frm.contains k || m.to.contains k || m.absorbing.contains k
+
+def releasedIn (evs : List Event) (k : Key) : Bool := evs.contains (Event.released k)
+
+/-- the step fired a mapping whose repeat mode is not Normal -/
+def Obs.firedNoRepeat (o : Obs) : Bool :=
+  match o.fired with
+  | some m => !m.rep.isNormal
+  | none => false
+
+/-- C05, foreign keys: pressed exactly when physically pressed (as the last event of that step), gone
+after the physical release, otherwise untouched — except that a non-modifier one may be lifted by a
+step that fires a no-repeat mapping; never pressed by any other step -/
+def monC05foreign (o : Obs) : Bool :=
+  let k := o.e.key
+  (if foreign o.L k && o.accepted then
+     match o.e with
+     | Event.pressed _ => o.evs.getLast? == some (Event.pressed k) && o.V'.contains k
+     | Event.released _ => !o.V'.contains k
+   else true) &&
+  (o.V ++ o.V' ++ o.evs.map Event.key).all fun x =>
+    if foreign o.L x && !(x == k && o.accepted) then
+      !pressedIn o.evs x &&
+      (o.V.contains x == o.V'.contains x ||
+        (o.V.contains x && !o.V'.contains x && isActionKey x && o.firedNoRepeat))
+    else true
+
+/-- C05, empty layout: the output stream equals the input stream -/
+def monC05empty (o : Obs) : Bool :=
+  if o.L.isEmpty then (if o.accepted then o.evs == [o.e] else o.evs.isEmpty) else true
+
+/-- C05, releases: an accepted release of `k` lifts only `k` itself and outputs of mappings (in effect
+before) that have `k` in their trigger; in layouts without absorbing, never a key that a mapping
+remaining in effect outputs -/
+def monC05release (o : Obs) : Bool :=
+  match o.e with
+  | Event.pressed _ => true
+  | Event.released k =>
+    if !o.accepted then true
+    else o.evs.all fun ev =>
+      match ev with
+      | Event.pressed _ => false
+      | Event.released x =>
+        (x == k || o.s.active.any fun m => m.frm.contains k && m.to.contains x) &&
+        (!noAbsLayout o.L || !(o.s'.active.any fun m => m.to.contains x))
+
+/-- the output key `y` of `m` is output by no other mapping of the layout -/
+def exclusive (L : Layout) (m : Mapping) (y : Key) : Bool :=
+  !L.any fun m2 => m2 != m && m2.to.contains y
+
+/-- C05, in-effect mappings (layouts without absorbing): while a mapping stays in effect, an event
+about a key outside its trigger does not lift its exclusively-owned modifiers if it is a
+modifier-remapping, nor its exclusively-owned output if it is a normal-repeat mapping without
+modifiers (the latter unless the step fires a no-repeat mapping) -/
+def monC05keep (o : Obs) : Bool :=
+  if !noAbsLayout o.L then true else
+  o.s.active.all fun m =>
+    if !o.s'.active.contains m || m.frm.contains o.e.key then true
+    else m.to.all fun y =>
+      if !exclusive o.L m y || !o.V.contains y then true
+      else if !isActionMapping m then
+        (if isActionKey y then true else o.V'.contains y && !releasedIn o.evs y)
+      else if m.rep.isNormal && !isAnyModifier m.to then
+        o.firedNoRepeat || (o.V'.contains y && !releasedIn o.evs y)
+      else true
+
+def monC05 (o : Obs) : Bool := monC05foreign o && monC05empty o && monC05release o && monC05keep o
+
 /-- all step monitors; returns the ids of the violated ones -/
 def stepMonitors (o : Obs) : List String :=
   (if monC01 o then [] else ["C01"]) ++
   (if monC02a o && monC02b o && monC02c o then [] else ["C02"]) ++
   (if monC03 o then [] else ["C03"]) ++
+  (if monC05foreign o then [] else ["C05:foreign"]) ++
+  (if monC05empty o then [] else ["C05:empty"]) ++
+  (if monC05release o then [] else ["C05:release"]) ++
+  (if monC05keep o then [] else ["C05:keep"]) ++
+  (match monC02dTag o with | some t => [t] | none => []) ++
   (if monC07 o then [] else ["C07"]) ++
   (if monC09 o then [] else ["C09"]) ++
   (if monC19 o then [] else ["C19"])
